@@ -96,6 +96,7 @@ theorem detectCycles_codes (d : Document) :
       · apply foldl_inv (fun st : CycleState => AllCode .noFragmentsCycle st.errs)
         · exact h
         · intro b a _ hb
+          simp only [cycleStep]
           split
           · split
             · exact ih _ _ _ _ hb
